@@ -102,26 +102,65 @@ def r3_confinement(R) -> None:
                     if isinstance(x, (ast.Subscript, ast.Attribute)) and isinstance(x.ctx, ast.Store):
                         stores.append((n, x))
     for (n, x) in stores:
-        ok = isinstance(x, ast.Subscript) and text(x.value) == 'self[self.TRACE_NAME]' and text(x.slice) == 't'
+        ok = isinstance(x, ast.Subscript) and f.etext(n.id, x.value) == 'self[self.TRACE_NAME]' and f.etext(n.id, x.slice) == 't'
         R.check(ok, q, f'trace-store:{text(x)[:40]}', 'the only store is the trace element of period t',
                 f'`{n.label()[:60]}` writes something other than self[self.TRACE_NAME][t]', where=f.where(n))
     calls = [x for x in ast.walk(f.fi.node) if isinstance(x, ast.Call) and isinstance(x.func, ast.Attribute) and x.func.attr in
              ('append', 'add_variable', 'add_attribute', '__setattr__', '__setitem__', 'replace_values', 'extend', 'update')]
     for c in calls:
-        ok = c.func.attr == 'append' and text(c.func.value) == 'self[self.TRACE_NAME][t]'
+        cn_ = [n for n in f.cfg.nodes if n.ast is not None and n.kind in ('stmt', 'test') and any(y is c for y in ast.walk(n.ast))]
+        recv = f.etext(cn_[0].id, c.func.value) if cn_ else text(c.func.value)
+        if c.func.attr == 'append' and isinstance(c.func.value, ast.Name) and c.func.value.id in f.lf.locals and recv != 'self[self.TRACE_NAME][t]' and cn_:
+            # a local list being filled (the names, the values) is not the model
+            vals_ = f.lf.values_reaching(cn_[0].id, c.func.value.id)
+            if vals_ and all(dv is not None and (isinstance(dv, (ast.List, ast.ListComp)) or is_call(dv, 'list')) for (_s, dv) in vals_):
+                continue
+        ok = c.func.attr == 'append' and recv == 'self[self.TRACE_NAME][t]'
         R.check(ok, q, f'trace-mutator:{text(c.func)[:40]}', 'the only mutation is Trace.append on the period\'s trace',
                 f'`{text(c)[:60]}` mutates something other than the trace of period t', where=f'{f.fi.module.relpath}:{c.lineno}')
     # model values are read into a fresh array
-    res = f.assigns_to('results')
-    ok = len(res) == 1 and is_call(res[0].ast.value, 'np.array')
-    R.check(ok, q, 'snapshot-fresh', 'the snapshot is a new array of the values at t', '`results` is not a fresh np.array(...)', where=f.fi.where)
+    # (what is appended: the second argument of the Trace.append call, read through locals and one-expression helpers)
+    app = [c for c in calls if c.func.attr == 'append' and len(c.args) == 2]
+    snap = None
+    if app:
+        an_ = [n for n in f.cfg.nodes if n.ast is not None and n.kind == 'stmt' and any(y is app[-1] for y in ast.walk(n.ast))]
+        if an_:
+            snap = f._inline_pure_calls(f.expand(an_[0].id, app[-1].args[1], comps=True), methods=True)
+            res = an_
+    if snap is None:
+        res = f.assigns_to('results')
+        snap = res[0].ast.value if len(res) == 1 else None
+    ok = snap is not None and is_call(snap, 'np.array')
+    R.check(ok, q, 'snapshot-fresh', 'the snapshot is a new array of the values at t', f'what is appended to the trace (`{text(snap)[:50] if snap is not None else "?"}`) is not a fresh np.array(...)', where=f.fi.where)
     if ok:
         from fsa.gated import canon as _canon
-        lc = _canon(f.expand(res[0].id, res[0].ast.value.args[0], comps=True), fuse=True)
+        lc = _canon(f.expand(res[0].id, snap.args[0], comps=True), fuse=True)
         gv = text(lc.generators[0].target) if isinstance(lc, ast.ListComp) else '?'
         # which names are traced is C17.R5's business: here, that each value is the traced variable's element at t
         ok2 = isinstance(lc, ast.ListComp) and len(lc.generators) == 1 and not lc.generators[0].ifs and f'self[{gv}][t]' in text(lc.elt)
         R.check(ok2, q, 'snapshot-values:' + text(lc)[:50], 'the snapshot holds the traced variables at t, in order', f'`{text(lc)[:60]}`', where=f.where(res[0]))
+    # the names a new Trace keeps are its own list: not the model's `names` / the class-level TRACE_VARIABLES / the
+    # caller's argument (the Trace would change when those do, and the other way round)
+    from fsa.gated import canon as _canon2, leaves as _leaves2, lift_ifs as _lift2
+    se_t = f.symexec(methods=True)
+    for n in f.cfg.nodes:
+        if n.ast is None or n.kind != 'stmt':
+            continue
+        for c in ast.walk(n.ast):
+            if is_call(c, 'Trace') and c.args:
+                try:
+                    lv = _leaves2(_canon2(_lift2(_canon2(se_t.value(n.ast, c.args[0])))))
+                except Exception:
+                    lv = []
+                for (_fc, leaf) in lv:
+                    fresh = isinstance(leaf, (ast.List, ast.ListComp)) or is_call(leaf, 'list', 'sorted', 'copy.copy', 'copy.deepcopy') or (isinstance(leaf, ast.Call) and isinstance(leaf.func, ast.Attribute) and leaf.func.attr == 'copy')
+                    shared = text(leaf) in ('self.names', 'self.TRACE_VARIABLES', "self.__dict__['names']") or (isinstance(leaf, ast.Name) and leaf.id in f.fi.params())
+                    if shared:
+                        R.violation(q, 'trace-names-shared:' + text(leaf)[:30],
+                                    f'`{text(c)[:40]}` can be given `{text(leaf)}` itself, not a copy: the Trace of the period keeps the very list the model (or the caller) owns, so a later '
+                                    f'change to one shows in the other (a variable added to the model appears in traces recorded before it)', where=f.where(n))
+                    elif fresh:
+                        R.check(True, q, 'trace-names-own:' + text(leaf)[:30], 'a new Trace keeps its own list of names', '', where=f.where(n))
     # Trace methods write only their own attributes
     for m in ('__init__', 'append'):
         tq = f'fsic.extensions.model.Trace.{m}'
@@ -159,7 +198,14 @@ def r5_trace_names(R) -> None:
     comps = []
     for n in f.cfg.nodes:
         if n.kind == 'stmt' and n.ast is not None:
-            for x in ast.walk(n.ast):
+            root = n.ast
+            val_ = getattr(n.ast, 'value', None)
+            if isinstance(val_, ast.AST):
+                # one-expression helper methods (`self._values(t, names)`) are read as the expression they return
+                inl = f._inline_pure_calls(val_, methods=True)
+                if inl is not val_:
+                    root = inl
+            for x in ast.walk(root):
                 if isinstance(x, (ast.ListComp, ast.GeneratorExp)):
                     # a comprehension over a local generator of the arrays reads as the comprehension over the names
                     xf = canon(f.expand(n.id, x, comps=True), fuse=True)
